@@ -3,6 +3,7 @@
 //! Code: mahf::components::initialization::{RandomSpread,RandomPermutation,RandomBitstring,Empty}, functional::{random_spread,random_permutation,random_bitstring}, initialization (driver)
 //! Out: coordinates further than K domain widths from the domain (K = 2 quick, 8 thorough; the reflection loop's trip count grows linearly with that distance); dimension > 2; population sizes > 2
 //! Out: the values produced by rand_distr's normal sampler (ln/exp are over-approximated by the engine): only containment on return and the draw-free cases are decided for the one-tailed correction
+//! Reclimit: mahf::state::(registry::)?StateRegistry::<.*>::find(_mut)?::<.*>=2
 //! Assume: termination = the loop's unwinding assertion passes with unwind = K+3 (a failed unwinding assertion is replayed natively under a watchdog; a hang is the violation)
 use mahf::components::boundary::{BoundaryConstraint, CompleteOneTailedNormalCorrection, Mirror, Saturation, Toroidal};
 use mahf::components::initialization::{Empty, Initialization, RandomBitstring, RandomPermutation, RandomSpread};
